@@ -137,6 +137,26 @@ def make_job(ctx, rng, kind, size1=False, integer_state=False):
             "dt_nat": rng.choice([Fraction(1, 64), Fraction(1, 256)]), "parallel": L.has_parallel_edges(phys)}
 
 
+def flagged_substrate_job(ctx, rng):
+    """directed: a one-cell system (the make_dxdtf route) in which a chemostated species is a SUBSTRATE of a reaction with a
+    non-zero constant and a free species takes part in it — the flagged entry still acts as a reactant (rejection sampling)"""
+    jb = None
+    for _ in range(60):
+        jb = make_job(ctx, rng, rng.choice(["grid", "graph"]), size1=True, integer_state=False)
+        phys, chem = jb["phys"], jb["chem"]
+        e0 = phys["env"][0]
+        for r in phys["reacs"]:
+            fwd = r["kf"][e0] != 0 and any(c > 0 and chem[sp] for sp, c in enumerate(r["sub"]))
+            bwd = r["kr"][e0] != 0 and any(c > 0 and chem[sp] for sp, c in enumerate(r["prod"]))
+            free = any((r["sub"][sp] != r["prod"][sp]) and not chem[sp] for sp in range(phys["ns"]))
+            if (fwd or bwd) and free and all(v != 0 for sp, v in enumerate(jb["x_si"]) if chem[sp]):
+                ctx.count("directed_flagged_substrate")
+                jb["integer_state"] = False
+                return jb
+    jb["integer_state"] = False
+    return jb
+
+
 def base_case(jb, kind):
     return {"kind": kind, "desc": jb["desc"], "phys": C1.phys_dump(jb["phys"]), "state": jb["state"], "chem": jb["chem"], "chem_mode": jb["chem_mode"],
             "U": list(jb["U"])}
@@ -447,6 +467,8 @@ def scenario_eval(case):
     ns, f, p, scen, kind, option = case["ns"], case["flagged"], case["product"], case["scenario"], case["space"], case["option"]
     N, k, nsteps = case["N"], case["k"], case["nsteps"]
     labels = L.LABELS[:ns]
+    if scen == "small-substrate":
+        return small_substrate_eval(case)
     species = [{"label": lab, "D": (1.0 if scen == "source" else 0.0), "density": 0} for lab in labels]
     net = {"species": species, "reactions": [{"eq": "%s -> %s" % (labels[f], labels[p]), "k+": k}] if scen == "reactant" else []}
     space = {"type": "grid", "w": 2, "h": 1, "d": 1} if kind == "grid" else {"type": "graph", "nodes": [{}, {}], "edges": [{"nodes": [0, 1]}]}
@@ -495,6 +517,53 @@ def scenario_eval(case):
     return True, None, detail
 
 
+def small_substrate_eval(case):
+    """A + B -> C with A chemostated at 5 molecules, B = 10^6 free, k*A*B/V*dt = 50 firings per leap: the flagged entry is
+    replenished, so the 5 molecules it shows do not bound the number of firings of one leap (C grows by ~50 per leap)."""
+    import math
+    ns, f, kind, option, nsteps = case["ns"], case["flagged"], case["space"], case["option"], case["nsteps"]
+    A, B, k = case["N"], case["B"], case["k"]
+    labels = L.LABELS[:ns]
+    a, b, c = f, (f + 1) % ns, (f + 2) % ns
+    species = [{"label": lab, "D": 0.0, "density": 0} for lab in labels]
+    net = {"species": species, "reactions": [{"eq": "%s + %s -> %s" % (labels[a], labels[b], labels[c]), "k+": k}]}
+    space = {"type": "grid", "w": 2, "h": 1, "d": 1, "cell_volume": "1 µm3"} if kind == "grid" else \
+        {"type": "graph", "nodes": [{"volume": "1 µm3"}, {"volume": "1 µm3"}], "edges": [{"nodes": [0, 1]}]}
+    system = L.build_system({"network": net, "space": space})
+    n = 2
+    x = [0.0] * (ns * n)
+    x[a * n] = float(A)
+    x[b * n] = float(B)
+    system.state = x
+    system.reset_chemostats()
+    system.set_chemostat(a, 0, 1)
+    chem = [int(v) for v in system.chemostats]
+    dt = Fraction(1, 16)
+    script, traj, _ = run_engine(system, option, L.DEFAULT_SYS, dt, nsteps, case["seed"], False)
+    ss = engine_io.samples(traj)
+    last = ss[-1][1]
+    target = c * n
+    per_leap = float(dt) * k * A * B            # cell volume 1 µm3, default units (µm, s, molecule)
+    detail = {"first": ss[0][1], "last": last, "chem": chem, "iterations": len(ss) - 1, "watched_entry": target}
+    if any(ss[j][1][e] != ss[0][1][e] for j in range(len(ss)) for e in range(ns * n) if chem[e]):
+        return False, "a chemostated entry changed", detail
+    got = last[target]
+    if option == "euler":
+        exp = per_leap                          # one step from the initial state: exact
+        detail["expected"] = exp
+        if not close(ss[1][1][target], Fraction(exp), rel=1e-9):
+            return False, "Euler: the product is %r after one step, dt*k*A*B/V = %r" % (ss[1][1][target], exp), detail
+        return True, None, detail
+    exp = nsteps * per_leap                     # B loses < 0.1 %% over the run
+    detail["expected_mean"] = exp
+    if not (got > 0 and abs(got - exp) <= 8 * math.sqrt(exp) + 1 + 0.002 * exp):
+        return False, ("tau-leap: %s + %s -> %s with the chemostated substrate held at %d molecules and %d molecules of the other: the product is %r "
+                       "after %d leaps; the rate law prescribes %r firings per leap, %r in all (a count this far off has probability < 1e-12): "
+                       "the amount shown by a chemostated entry must not bound the firings of a leap"
+                       % (labels[a], labels[b], labels[c], A, B, got, nsteps, per_leap, exp)), detail
+    return True, None, detail
+
+
 def source_scenarios(ctx):
     """a flagged entry still drives its surroundings, on the real engines: (a) diffusion source — a chemostated cell full of
     molecules next to an empty free cell must fill it; (b) reactant — a chemostated species converts into a free product at the
@@ -504,8 +573,8 @@ def source_scenarios(ctx):
     rng = ctx.rng
     for kind in ("grid", "graph"):
         for option in ("euler", "tauleap", "gillespie"):
-            for scen, N in [("source", 1000)] + [("reactant", N) for N in RESERVOIRS]:
-                ns = rng.choice([2, 3])
+            for scen, N in [("source", 1000)] + [("reactant", N) for N in RESERVOIRS] + ([("small-substrate", 5)] if option != "gillespie" else []):
+                ns = 3 if scen == "small-substrate" else rng.choice([2, 3])
                 f = rng.randrange(ns)                 # index of the flagged species
                 p = (f + 1) % ns                      # product species (reactant scenario)
                 k = 1.0 if N == 1000 else 100.0 / N   # expected firings k*N*t: 500 resp. 50 in t = 1/2
@@ -513,6 +582,8 @@ def source_scenarios(ctx):
                 seed = rng.randrange(1, 2 ** 31 - 1)
                 case = {"kind": "scenario", "scenario": scen, "space": kind, "option": option, "ns": ns, "flagged": f, "product": p,
                         "nsteps": nsteps, "seed": seed, "N": N, "k": k}
+                if scen == "small-substrate":
+                    case.update(B=10 ** 6, k=1.6e-4, nsteps=(1 if option == "euler" else 8))
                 try:
                     ok, what, detail = scenario_eval(case)
                 except Exception as ex:  # noqa
@@ -624,7 +695,7 @@ def run(ctx):
     two_simulations(ctx)
     source_scenarios(ctx)
     nsys = ctx.n(30, 500)
-    jobs = [flag_dict_job(rng, "grid"), flag_dict_job(rng, "graph")]
+    jobs = [flag_dict_job(rng, "grid"), flag_dict_job(rng, "graph"), flagged_substrate_job(ctx, rng)]
     ctx.count("directed_flag_dicts", 2)
     for k in range(nsys):
         if C1.out_of_time(ctx, -8 if ctx.tier == "quick" else 0):
